@@ -167,8 +167,8 @@ def assigned_targets(stmt):
 
 def loc(func, node):
     """file:line of a node inside Func `func`."""
-    line = getattr(node, 'lineno', None)
-    return f'{func.module.relpath}:{line}' if line else func.module.relpath
+    line = getattr(node, 'orig_lineno', None) or getattr(node, 'lineno', None)
+    return f'{func.module.relpath}:{int(line)}' if line else func.module.relpath
 
 
 def parent_map(root):
